@@ -176,6 +176,17 @@ Definition enc_record (strings contigs : smap) (s : site) (infos fmts : list fie
   bind (u32 (Z.of_nat (length ib))) (fun l2 =>
   Ok (l1 ++ l2 ++ sb ++ ib))))).
 
+(* SWITCH for the repair of format-keys-without-sample-rows (fix 11, NOT applied at the modelled
+   tree): write_site counts the FORMAT keys (n_fmt) even when the record has no sample rows and
+   therefore no FORMAT block.  After the repair n_fmt is 0 in that case, i.e. the record is written
+   as if it had no keys.  [enc_record_w] is write_record as the cases exercise it. *)
+Definition fix11_nfmt_zero_without_rows : bool := false.
+
+Definition enc_record_w (strings contigs : smap) (s : site) (infos fmts : list field) (has_rows : bool)
+  : res (list N) :=
+  enc_record strings contigs s infos
+    (if fix11_nfmt_zero_without_rows && negb has_rows then [] else fmts) has_rows.
+
 (* ------------------------------------------------------------------ reading *)
 (* read_record_buf: l_shared (0 = end of input), l_indiv, the two blocks *)
 Definition dec_frame (bs : list N) : option (list N * list N * list N) :=
